@@ -274,10 +274,10 @@ Lemma window_outside (c : list A) win i (v : A) : ~ 0 <= i < Z.of_nat (snd win) 
   win_get c win i = Panic IndexOutOfRange /\ win_store c win i v = (c, Some IndexOutOfRange).
 Proof. intro H. unfold win_get, win_store. rewrite (oob_true _ _ H). auto. Qed.
 
-Lemma row_span_in a x1 x2 y : wf a -> 0 <= x1 -> x1 <= x2 -> x2 < width a -> 0 <= y < height a ->
+Lemma row_span_in a x1 x2 y : wf a -> 0 <= x1 < width a -> 0 <= x2 < width a -> x1 <= x2 + 1 -> 0 <= y < height a ->
   row_span a x1 x2 y = Ok (pos a x1 y, Z.to_nat (x2 - x1 + 1)).
 Proof.
-  intros Hwf H1 H12 H2 Hy. unfold row_span.
+  intros Hwf H1 H2 H12 Hy. unfold row_span.
   rewrite (oob_false x1 (width a)) by lia. rewrite (oob_false y (height a)) by lia.
   rewrite (oob_false x2 (width a)) by lia.
   rewrite slice_win_ok.
@@ -317,7 +317,7 @@ Lemma row_span_window a x1 x2 y : wf a -> 0 <= x1 -> x1 <= x2 -> x2 < width a ->
       win_get (cells a') win i = get a' (x1 + i) y /\
       with_cells a' (win_store (cells a') win i v) = set a' (x1 + i) y v.
 Proof.
-  intros Hwf H1 H12 H2 Hy. eexists. split; [apply row_span_in; assumption|]. simpl.
+  intros Hwf H1 H12 H2 Hy. eexists. split; [apply row_span_in; (assumption || lia)|]. simpl.
   split; [lia|]. intros a' _ Ew Eh i v Hi.
   replace (pos a x1 y) with (pos a' x1 y) by (unfold pos; rewrite Ew; reflexivity).
   apply window_is_cells; lia.
@@ -829,3 +829,142 @@ Proof.
 Qed.
 
 End LastStored.
+
+(* ---- the property as a refinement: every program of mutating calls ---- *)
+Section Refinement.
+Context {A : Type}.
+Implicit Types (a : array2d A) (g : grid A).
+
+Lemma inb_spec a x y : inb (width a) (height a) x y = true <-> in_bounds a x y.
+Proof.
+  unfold inb, in_bounds.
+  destruct (Z.leb_spec 0 x), (Z.ltb_spec x (width a)), (Z.leb_spec 0 y), (Z.ltb_spec y (height a)); simpl;
+    split; intro; try discriminate; try reflexivity; lia.
+Qed.
+
+Lemma inb_false a x y : inb (width a) (height a) x y = false <-> ~ in_bounds a x y.
+Proof.
+  rewrite <- inb_spec. destruct (inb (width a) (height a) x y); split; intro; congruence.
+Qed.
+
+Lemma agrees_same a a' g : width a' = width a -> height a' = height a ->
+  (forall x y, get a' x y = get a x y) -> agrees a g -> agrees a' g.
+Proof.
+  intros Ew Eh E H x y Hin. rewrite E. apply H. unfold in_bounds in *. rewrite <- Ew, <- Eh. exact Hin.
+Qed.
+
+(* the result of Set in terms of the cell model *)
+Lemma set_refines a g x y (v : A) : wf a -> agrees a g -> in_bounds a x y ->
+  exists a', set a x y v = (a', None) /\ wf a' /\ width a' = width a /\ height a' = height a /\
+    agrees a' (upd g x y v).
+Proof.
+  intros Hwf Hag Hin. destruct (set_in a x y v Hwf Hin) as (a' & E & Hwf' & Ew & Eh & Hg & Ho).
+  exists a'. repeat (split; [assumption|]). intros x' y' Hin'. unfold upd.
+  destruct (Z.eqb_spec x' x) as [->|Nx]; [destruct (Z.eqb_spec y' y) as [->|Ny]|]; cbn [andb].
+  - exact Hg.
+  - rewrite Ho by congruence. apply Hag. unfold in_bounds in *. rewrite <- Ew, <- Eh. exact Hin'.
+  - rewrite Ho by congruence. apply Hag. unfold in_bounds in *. rewrite <- Ew, <- Eh. exact Hin'.
+Qed.
+
+(* a panicking call through a window leaves an array with the same cells *)
+Lemma with_cells_same a p : with_cells a (cells a, p) = (a, p).
+Proof. destruct a. reflexivity. Qed.
+
+Lemma run_call_refines a g (k : call A) : wf a -> agrees a g ->
+  exists a' p, run_call a k = (a', p) /\ wf a' /\ width a' = width a /\ height a' = height a /\
+    agrees a' (fst (ref_call (width a) (height a) g k)) /\
+    snd (ref_call (width a) (height a) g k) = match p with Some _ => true | None => false end.
+Proof.
+  intros Hwf Hag. destruct k as [x y v|x1 y1 x2 y2 v|y i v|x1 x2 y i v]; cbn [run_call ref_call].
+  - (* Set *)
+    destruct (inb (width a) (height a) x y) eqn:Ei.
+    + apply inb_spec in Ei. destruct (set_refines a g x y v Hwf Hag Ei) as (a' & E & H1 & H2 & H3 & H4).
+      exists a', None. rewrite E. cbn [fst snd]. auto 10.
+    + apply inb_false in Ei. rewrite (set_out a x y v Ei). exists a, (Some IndexOutOfRange). cbn [fst snd]. auto 10.
+  - (* Fill *)
+    destruct (inb (width a) (height a) x1 y1) eqn:E1; [destruct (inb (width a) (height a) x2 y2) eqn:E2|]; cbn [andb].
+    + apply inb_spec in E1, E2.
+      destruct (fill_in a x1 y1 x2 y2 v Hwf E1 E2) as (a' & E & Hwf' & Ew & Eh & Hg).
+      exists a', None. rewrite E. cbn [fst snd]. repeat (split; [assumption || reflexivity|]). split; [|reflexivity].
+      intros x y Hin. assert (Hin0 : in_bounds a x y) by (unfold in_bounds in *; rewrite <- Ew, <- Eh; exact Hin).
+      rewrite (Hg x y Hin0). destruct (in_rect x1 y1 x2 y2 x y); [reflexivity|]. apply Hag. exact Hin0.
+    + apply inb_false in E2. rewrite (fill_out a x1 y1 x2 y2 v) by tauto.
+      exists a, (Some IndexOutOfRange). cbn [fst snd]. auto 10.
+    + apply inb_false in E1. rewrite (fill_out a x1 y1 x2 y2 v) by tauto.
+      exists a, (Some IndexOutOfRange). cbn [fst snd]. auto 10.
+  - (* Row(y)[i] = v *)
+    destruct (inb (width a) (height a) i y) eqn:Ei.
+    + apply inb_spec in Ei. pose proof Ei as [Hi Hy].
+      rewrite (row_in a y Hwf Hy).
+      destruct (window_is_cells a 0 y (Z.to_nat (width a)) i v) as [_ Ews]; try lia.
+      cbv zeta in Ews. rewrite Ews. replace (0 + i) with i by lia.
+      destruct (set_refines a g i y v Hwf Hag Ei) as (a' & E & H1 & H2 & H3 & H4).
+      exists a', None. rewrite E. cbn [fst snd]. auto 10.
+    + apply inb_false in Ei.
+      assert (exists p, match row a y with
+                        | Ok win => with_cells a (win_store (cells a) win i v)
+                        | Panic p => (a, Some p) end = (a, Some p)) as [p Ep].
+      { destruct (Z.ltb_spec y 0) as [Hy|Hy]; [|destruct (Z.ltb_spec y (height a)) as [Hy2|Hy2]].
+        - rewrite row_out by lia. eexists; reflexivity.
+        - rewrite (row_in a y Hwf) by lia.
+          destruct (window_outside (cells a) (pos a 0 y, Z.to_nat (width a)) i v) as [_ Es].
+          { cbn [snd]. destruct Hwf as (Hw & _). unfold in_bounds in Ei. lia. }
+          rewrite Es, with_cells_same. eexists; reflexivity.
+        - rewrite row_out by lia. eexists; reflexivity. }
+      rewrite Ep. exists a, (Some p). cbn [fst snd]. auto 10.
+  - (* RowSpan(x1,x2,y)[i] = v *)
+    destruct (inb (width a) (height a) x1 y && inb (width a) (height a) x2 y && (0 <=? i) && (i <=? x2 - x1)) eqn:Ei.
+    + apply andb_true_iff in Ei as [Ei Ei4]. apply andb_true_iff in Ei as [Ei Ei3].
+      apply andb_true_iff in Ei as [Ei1 Ei2]. apply inb_spec in Ei1, Ei2.
+      apply Z.leb_le in Ei3, Ei4. destruct Ei1 as [Hx1 Hy], Ei2 as [Hx2 _].
+      rewrite (row_span_in a x1 x2 y Hwf) by lia.
+      destruct (window_is_cells a x1 y (Z.to_nat (x2 - x1 + 1)) i v) as [_ Ews]; try lia.
+      cbv zeta in Ews. rewrite Ews.
+      assert (Hin : in_bounds a (x1 + i) y) by (unfold in_bounds; lia).
+      destruct (set_refines a g (x1 + i) y v Hwf Hag Hin) as (a' & E & H1 & H2 & H3 & H4).
+      exists a', None. rewrite E. cbn [fst snd]. auto 10.
+    + assert (exists p, match row_span a x1 x2 y with
+                        | Ok win => with_cells a (win_store (cells a) win i v)
+                        | Panic p => (a, Some p) end = (a, Some p)) as [p Ep].
+      { destruct (inb (width a) (height a) x1 y) eqn:E1; [destruct (inb (width a) (height a) x2 y) eqn:E2|].
+        - apply inb_spec in E1, E2. destruct E1 as [Hx1 Hy], E2 as [Hx2 _]. cbn [andb] in Ei.
+          destruct (Z.leb_spec x1 (x2 + 1)) as [H12|H12].
+          + rewrite (row_span_in a x1 x2 y Hwf) by lia.
+            destruct (window_outside (cells a) (pos a x1 y, Z.to_nat (x2 - x1 + 1)) i v) as [_ Es].
+            { cbn [snd]. destruct (Z.leb_spec 0 i), (Z.leb_spec i (x2 - x1)); try discriminate; lia. }
+            rewrite Es, with_cells_same. eexists; reflexivity.
+          + unfold row_span. rewrite (oob_false x1), (oob_false y), (oob_false x2) by lia.
+            unfold slice_win.
+            destruct (Z.leb_spec (x1 + y * width a) (1 + x2 + y * width a)); [lia|].
+            rewrite andb_false_r. cbn [andb]. eexists; reflexivity.
+        - apply inb_false in E2. rewrite row_span_out by (unfold in_bounds in E2; lia). eexists; reflexivity.
+        - apply inb_false in E1. rewrite row_span_out by (unfold in_bounds in E1; lia). eexists; reflexivity. }
+      rewrite Ep. exists a, (Some p). cbn [fst snd]. auto 10.
+Qed.
+
+Theorem run_calls_refine : forall (ks : list (call A)) a g, wf a -> agrees a g ->
+  wf (fst (run_calls a ks)) /\
+  width (fst (run_calls a ks)) = width a /\ height (fst (run_calls a ks)) = height a /\
+  agrees (fst (run_calls a ks)) (fst (ref_calls (width a) (height a) g ks)) /\
+  snd (run_calls a ks) = snd (ref_calls (width a) (height a) g ks).
+Proof.
+  induction ks as [|k rest IH]; intros a g Hwf Hag.
+  - simpl. auto.
+  - cbn [run_calls ref_calls].
+    destruct (run_call_refines a g k Hwf Hag) as (a1 & p & E & Hwf1 & Ew & Eh & Hag1 & Hp).
+    rewrite E. destruct (ref_call (width a) (height a) g k) as [g1 b] eqn:Er. cbn [fst snd] in Hag1, Hp.
+    specialize (IH a1 g1 Hwf1 Hag1). rewrite Ew, Eh in IH.
+    destruct (run_calls a1 rest) as [a2 ps]. destruct (ref_calls (width a) (height a) g1 rest) as [g2 bs].
+    cbn [fst snd] in *. destruct IH as (H1 & H2 & H3 & H4 & H5).
+    repeat (split; [assumption|]). rewrite H5, Hp. reflexivity.
+Qed.
+
+End Refinement.
+
+(* non-vacuity of [agrees]: a concrete 3x2 array and its cell function *)
+Lemma agrees_example : agrees (Arr 3 2 [1;2;3;4;5;6]) (fun x y => 1 + x + y * 3).
+Proof.
+  intros x y [Hx Hy]. cbn [width height] in Hx, Hy.
+  assert (x = 0 \/ x = 1 \/ x = 2) as [->|[->| ->]] by lia;
+    (assert (y = 0 \/ y = 1) as [->| ->] by lia); reflexivity.
+Qed.
